@@ -324,6 +324,50 @@ def ob_dyndeps():
     return h
 
 
+def ob_project(dim):
+    """GRAPH level: a whole configuration (real Interpreter, real NinjaBackend.generate) of a generated project without a compiled language - see harness/proj.py.
+    build.ninja, read back with the reference parser, is well-formed and closed; everything built by default is reachable from `all`, everything a test /
+    benchmark runs or depends on from meson-test-prereq / meson-benchmark-prereq, what an alias or run target names from that target; every custom target's
+    statement consumes exactly the inputs the definition gives it"""
+    def h():
+        from harness import proj as PJ
+        pr, c, g = PJ.run_project(dim)
+        PJ.wellformed(c, g)
+        for t in ('A', 'B', 'C'):
+            for o in pr.outs[t]: check(o in g.producer, 'every output of a custom target is produced by a statement')
+        r = g.reach('all')
+        for t in pr.default:
+            for o in pr.outs[t]: check(o in r, 'every target built by default is reachable from all')
+        for needs, agg, what in ((pr.test_needs, 'meson-test-prereq', 'a test'), (pr.bench_needs, 'meson-benchmark-prereq', 'a benchmark')):
+            check(agg in g.producer, 'the prerequisites aggregate exists')
+            if needs is not None:
+                r2 = g.reach(agg)
+                for o in pr.outs[needs]: check(o in r2, 'every target %s runs or depends on is reachable from its prerequisites aggregate' % what)
+        if pr.alias is not None:
+            r3 = g.reach('al')
+            for o in pr.outs[pr.alias]: check(o in r3, 'an alias target builds the target it names')
+        if pr.run_needs is not None:
+            r4 = g.reach('rt')
+            for o in pr.outs[pr.run_needs]: check(o in r4, 'a run target builds the targets its command and depends: name')
+        for t in ('B', 'C'):
+            st = g.stmts[g.producer[pr.outs[t][0]]]
+            check(sorted(st['outs']) == sorted(pr.outs[t]), 'one statement produces all outputs of a custom target')
+            if pr.ins[t] is not None:
+                check([os.path.normpath(i) for i in st['ins']] == pr.ins[t], 'the statement of a custom target consumes exactly its declared inputs, in order')
+            else:
+                check(len(st['ins']) == 2 and all(i in g.producer for i in st['ins']), 'generator outputs consumed by a custom target are produced by a statement')
+                cover('generator')
+        stb = g.stmts[g.producer[pr.outs['B'][0]]]
+        for d in pr.b_extra_deps: check(d in [os.path.normpath(i) for i in stb['deps'] + stb['order'] + stb['ins']], 'depends: / depend_files: become dependencies of the statement')
+        if pr.c_cmd_dep is not None:
+            stc = g.stmts[g.producer['c1.txt']]
+            check(pr.c_cmd_dep in stc['deps'] + stc['order'] + stc['ins'], 'a target output named in a command is a dependency of the statement')
+        cover('done')
+        if pr.default: cover('default')
+        if pr.test_needs or pr.bench_needs: cover('test')
+    return h
+
+
 def obligations(tier):
     q = tier == 'quick'
     out = [Obligation('paths[%d]' % k, ob_statement(k, False), dict(path_len=k, lists='outputs, implicit outputs, inputs', alphabet=PA, rule='R|S|phony|undefined', rsp_threshold='symbolic'),
@@ -338,4 +382,7 @@ def obligations(tier):
     for n, pl in ((2, 1), (2, 2)) if q else ((2, 1), (2, 2), (3, 1), (3, 2)):
         out.append(Obligation('producers[%d,%d]' % (n, pl), ob_producers(n, pl), dict(statements=n, outputs_each='1-2', path_len=pl), labels=('rejected', 'accepted'), max_paths=3000000))
     out.append(Obligation('dyndeps-closure', ob_dyndeps(), dict(real='NinjaBackend.generate_dependency_scan_target / should_use_dyndeps_for_target / get_dep_scan_file_for', targets='an executable + 1-2 static libraries (optionally chained)', per_target='plain C | plain C++ | C++ with a modules flag | Fortran', generation_order='both'), labels=('scanning', 'none')))
+    for dim in (('inputs', 'consumers') if q else ('all',)):
+        out.append(Obligation('project-graph[%s]' % dim, ob_project(dim), dict(real='Interpreter.run + NinjaBackend.generate on a generated project without a compiled language', targets='3 custom targets (1-2 outputs), generator, configure_file, alias / run target, test / benchmark, subdirectory',
+                              symbolic='build_by_default x2, build_always_stale, install, the index into a multi-output target', varies=dim), labels=('done', 'default', 'test') if dim != 'inputs' else ('done', 'default', 'generator'), max_paths=2000000, path_timeout=300))
     return out
